@@ -20,6 +20,7 @@ import types
 import uuid
 
 from hypothesis import strategies as st
+from vf.core import fd
 
 
 class HostileError(Exception):
@@ -74,6 +75,36 @@ class DictSub(dict):
 
 
 NT = collections.namedtuple('NT', ['p', 'q'])
+
+
+class Mailbox:
+    """A user collection with __len__ and a *draining* __iter__: reading it consumes it."""
+
+    def __init__(self, items):
+        self._q = collections.deque(items)
+
+    def __len__(self):
+        return len(self._q)
+
+    def __iter__(self):
+        while self._q:
+            yield self._q.popleft()
+
+
+class OneShot:
+    """Iterable whose __iter__ may be called only once, and which counts len() calls as reads."""
+
+    def __init__(self):
+        self.reads = 0
+        self.used = False
+
+    def __len__(self):
+        self.reads += 1
+        return 3
+
+    def __iter__(self):
+        self.used = True
+        return iter([1, 2, 3])
 
 
 def _mk_hostile(kind, exc_code):
@@ -182,7 +213,8 @@ NODICT_KINDS = ['bytes', 'badbytes', 'bytearray', 'slots', 'lock', 'deque', 'dat
                 'builtin_func', 'method', 'memoryview', 'ellipsis', 'notimpl', 'object', 'property', 'cell',
                 'stringio', 'ordereddict', 'defaultdict', 'namedtuple', 'counter', 'strsub', 'intsub', 'listsub',
                 'dictsub', 'dataclass', 'func', 'lambda', 'cls', 'module', 'list_iter', 'list_reviter',
-                'frame', 'traceback_obj', 'code', 'weakref', 'date', 'timedelta', 'slice', 'mappingproxy']
+                'frame', 'traceback_obj', 'code', 'weakref', 'date', 'timedelta', 'slice', 'mappingproxy', 'mailbox',
+                'oneshot', 'mailbox']
 SCALAR_KINDS = ['none', 'bool', 'int', 'bigint', 'float', 'nan', 'inf', 'str', 'longstr', 'surrogate', 'nulstr',
                 'astral', 'emptystr']
 CONTAINER_KINDS = ['list', 'tuple', 'set', 'frozenset', 'dict', 'obj', 'exc']
@@ -337,6 +369,10 @@ def _build_leaf(node):
         return slice(1, 2)
     if k == 'mappingproxy':
         return types.MappingProxyType({'mp': 1})
+    if k == 'mailbox':
+        return Mailbox([1, 2, 3])
+    if k == 'oneshot':
+        return OneShot()
     if k == 'hsub':
         return _mk_hsub(node.get('base', 'dict'), node.get('dunder', '__len__'), node.get('exc', 'E'))
     if k in HOSTILE_KINDS:
@@ -439,24 +475,24 @@ def node_strategy(kinds, max_items=5, str_keys_only=False, max_ref=40):
 
     def mk(k):
         if k in ('list', 'tuple', 'set', 'frozenset'):
-            return st.fixed_dictionaries({'k': st.just(k), 'items': refs})
+            return fd({'k': st.just(k), 'items': refs})
         if k == 'exc':
-            return st.fixed_dictionaries({'k': st.just(k), 'items': st.lists(st.integers(0, max_ref), max_size=3),
+            return fd({'k': st.just(k), 'items': st.lists(st.integers(0, max_ref), max_size=3),
                                           'cls': st.sampled_from(['V', 'K', 'R'])})
         if k == 'dict':
             kp = _str_key_payload if str_keys_only else _key_payload
-            return st.fixed_dictionaries({'k': st.just(k), 'items': st.lists(
+            return fd({'k': st.just(k), 'items': st.lists(
                 st.tuples(kp, st.integers(0, max_ref)).map(list), max_size=max_items)})
         if k == 'obj':
-            return st.fixed_dictionaries({'k': st.just(k), 'attrs': st.lists(
+            return fd({'k': st.just(k), 'attrs': st.lists(
                 st.tuples(_attr_names, st.integers(0, max_ref)).map(list), max_size=max_items)})
         if k == 'hsub':
-            return st.fixed_dictionaries({'k': st.just(k), 'exc': st.sampled_from(['E', 'E', 'B']),
+            return fd({'k': st.just(k), 'exc': st.sampled_from(['E', 'E', 'B']),
                                           'base': st.sampled_from(sorted(HSUB_BASES)),
                                           'dunder': st.sampled_from(HSUB_DUNDERS)})
         if k in HOSTILE_KINDS:
-            return st.fixed_dictionaries({'k': st.just(k), 'exc': st.sampled_from(['E', 'E', 'B'])})
-        return st.fixed_dictionaries({'k': st.just(k), 'v': st.integers(0, 9)})
+            return fd({'k': st.just(k), 'exc': st.sampled_from(['E', 'E', 'B'])})
+        return fd({'k': st.just(k), 'v': st.integers(0, 9)})
     return st.sampled_from(kinds).flatmap(mk)
 
 
